@@ -2,7 +2,10 @@
 \* covered; MaxReg bounds how often one tunnel id is registered.
 \*   MODE = atomic | split (call-site steps)
 \*   LF = FALSE (as-is: lifecycle started after the registration)  INVS = LookupGone NoDev
-\*   LF = TRUE  (lifecycle started first)                          INVS = LookupGoneOrDev
+\*   LF = TRUE  (lifecycle started first)                          INVS = LookupExact LookupGoneOrDev
+\*   as-is generally: INVS = LookupExact LookupGone NoDev LookupPure
+\*   SKIP = TRUE (no record when the target is on the source node) / EVICT = TRUE (evicting lookups):
+\*                                                                 INVS = LookupExactOrDev LookupGoneOrDev
 CONSTANTS
   Nodes = @@NODES@@
   Tunnels = @@TUNNELS@@
@@ -13,10 +16,12 @@ CONSTANTS
   Shapes = {"identity", "jsonString", "jsonMap"}
   Mode = "@@MODE@@"
   LifecycleFirst = @@LF@@
+  SkipLocalTarget = @@SKIP@@
+  EvictingLookup = @@EVICT@@
   Emit = FALSE
   Only = "all"
 INIT Init
 NEXT Next
 VIEW view
-INVARIANTS TypeOK LookupExact @@INVS@@
+INVARIANTS TypeOK @@INVS@@
 CHECK_DEADLOCK FALSE
